@@ -89,33 +89,32 @@ def run(chk, repo):
     loops = [l for l in G.find_for(main.node) if unparse(l.iter) == 'self.target_db']
     ok = len(loops) == 1 and [norm_stmt(s) for s in loops[0].body] == ['self.generate_decoy_sequence(seq)']
     chk.ob('C20.a', 'main generates exactly one decoy per target', main.where, ok, 'main loop altered', key=main.qual + '::per-target', fn=main.qual)
-    # output orders
-    br = {}
-    n = next((s for s in itd.node.body if isinstance(s, ast.If)), None)
-    while n is not None:
-        if unparse(n.test).startswith('self.order == '):
-            br[ast.literal_eval(n.test.comparators[0])] = n.body
-        nxt = n.orelse
-        n = nxt[0] if len(nxt) == 1 and isinstance(nxt[0], ast.If) else None
-        if n is None:
-            br['__else__'] = nxt
-
-    def yields(body):
-        out = []
-        for s in body:
-            if isinstance(s, ast.For):
-                ys = [unparse(y.value.value) for y in s.body if isinstance(y, ast.Expr) and isinstance(y.value, ast.Yield)]
-                out.append((unparse(s.iter), ys))
-        return out
+    # output orders (E9): what the generator yields, in order, for each value of self.order when both databases are non-empty
+    from sa.peval import PEval as _PE, show as _psh
+    T_, D_ = '<item of self.target_db>', '<item of self.decoy_db>'
     exp = {
-        'juxtaposed': [('enumerate(self.target_db)', ['target_seq', 'self.decoy_db[i]'])],
-        'target_first': [('self.target_db', ['seq']), ('self.decoy_db', ['seq'])],
-        'decoy_first': [('self.decoy_db', ['seq']), ('self.target_db', ['seq'])],
+        'juxtaposed': [['<item of enumerate(self.target_db)>[1]', 'self.decoy_db[<item of enumerate(self.target_db)>[0]]'],
+                       ['<item of zip(self.target_db, self.decoy_db)>[0]', '<item of zip(self.target_db, self.decoy_db)>[1]']],
+        'target_first': [[T_, D_]],
+        'decoy_first': [[D_, T_]],
     }
-    ok = all(k in br and yields(br[k]) == v for k, v in exp.items()) and bool(br.get('__else__')) and isinstance(br['__else__'][-1], ast.Raise)
-    chk.ob('C20.a', 'each order branch yields every target and decoy once in the requested order', itd.where, ok,
-           f"order branches {{k: yields(v) for k, v in br.items() if k != '__else__'}}".replace('{', '').replace('}', '') if False else
-           f"order branches: { {k: yields(v) for k, v in br.items() if k != '__else__'} }", key=itd.qual + '::orders', fn=itd.qual)
+    got, ok = {}, True
+    for order in list(exp) + ['<other>']:
+        try:
+            outs = _PE(split_unknown=True).run(itd.node, {'self.order': order})
+        except (ValueError, OverflowError) as e_:
+            chk.undecided('C20.a', 'output orders', itd.where, f"iterate_target_decoy_database cannot be evaluated for order {order!r}: {e_}")
+            ok = None
+            break
+        if order == '<other>':
+            ok = ok and bool(outs) and all(o.kind == 'raise' for o in outs)
+            continue
+        full = [[_psh(ef[1]) for ef in o.effects if ef[0] == 'yield'] for o in outs if '<loop not entered>' not in o.assumed and o.kind != 'raise']
+        got[order] = full
+        ok = ok and len(full) == 1 and full[0] in exp[order] and not any(o.kind == 'raise' for o in outs)
+    if ok is not None:
+        chk.ob('C20.a', 'each order branch yields every target and decoy once in the requested order', itd.where, ok,
+               f"yields per order: {got}", key=itd.qual + '::orders', fn=itd.qual)
 
     # ------------------------------------------------------------------ b
     chk.rule('C20.b', 'must-precede: sort -> seed -> generation; seed guard is None-ness', 4)
